@@ -193,14 +193,14 @@ Qed.
 
 (* SAME FILE SET (network): after the session  MDir d; trace data; metadata of L; MEnd  the receiver's
    directory d has, for every name, exactly the local directory's file *)
-Lemma same_file_set k d L data s :
+Lemma same_file_set fx k d L data s :
   NoDup (map fst L) -> (forall e, In e L -> sent_name (fst e) = true) -> forallb is_data data = true ->
-  create_directory d (fs s) d = Some fresh_dir ->
-  exists s' R, run (map (pair k) (MDir d :: (data ++ meta_msgs L) ++ [MEnd])) s = Some s' /\ fs s' d = Some R /\
+  mkdir_name fx d (clients s) = Some d -> create_directory d (fs s) d = Some fresh_dir ->
+  exists s' R, run fx (map (pair k) (MDir d :: (data ++ meta_msgs L) ++ [MEnd])) s = Some s' /\ fs s' d = Some R /\
     forall f, flookup f R = match flookup f L with Some c => Some c | None => flookup f (local_dir data) end.
 Proof.
-  intros ND A D C.
-  destruct (same_as_local k d (data ++ meta_msgs L) s) as [s' [R [F _]]]; [|exact C|].
+  intros ND A D MK C.
+  destruct (same_as_local fx k d (data ++ meta_msgs L) s) as [s' [R [F _]]]; [|exact MK|exact C|].
   - rewrite forallb_app, (data_body data D), meta_msgs_body. reflexivity.
   - exists s', (local_dir (data ++ meta_msgs L)). split; [exact R|]. split; [exact F|].
     apply same_file_set_local; assumption.
@@ -224,3 +224,171 @@ Proof.
   split; [|split; vm_compute; reflexivity].
   repeat constructor; cbn; intros H; repeat (destruct H as [H|H]; [vm_compute in H; discriminate|]); exact H.
 Qed.
+
+(* ------------------------------------------------------------------ a file sent in several pieces *)
+Section Chunked.
+  Variable chunk : bytes -> list bytes.
+  Hypothesis chunk_nonempty : forall c, chunk c <> [].          (* even an empty file gets a message: it is created *)
+  Hypothesis chunk_concat : forall c, concat (chunk c) = c.     (* the payloads of a file's messages are the file *)
+
+  Definition namedc (f : bytes) (X : dirent) : list bytes :=
+    flat_map (fun e => chunk (snd e)) (filter (fun e => list_eqb f (fst e)) X).
+
+  Lemma written_map_meta f g ps : written f (map (MMeta g) ps) = if list_eqb f g then ps else [].
+  Proof.
+    induction ps as [|p ps IH]; [destruct (list_eqb f g); reflexivity|]. cbn [map written target].
+    destruct (list_eqb f g) eqn:E; [f_equal|]; rewrite IH, ?E; reflexivity.
+  Qed.
+  Lemma written_files_c f X : written f (flat_map (msgs_of_file chunk) X) = namedc f X.
+  Proof.
+    unfold namedc. induction X as [|[g c] X IH]; [reflexivity|]. cbn [flat_map filter fst].
+    rewrite written_app. unfold msgs_of_file at 1. cbn [fst snd]. rewrite written_map_meta, IH.
+    destruct (list_eqb f g); reflexivity.
+  Qed.
+  Lemma namedc_sel f p L : namedc f (sel p L) = if p f then namedc f L else [].
+  Proof.
+    unfold namedc. assert (H := named_sel f p L). unfold named in H.
+    assert (E : filter (fun e => list_eqb f (fst e)) (sel p L) =
+                if p f then filter (fun e => list_eqb f (fst e)) L else []).
+    { unfold sel. clear H. induction L as [|[g c] L IH]; [destruct (p f); reflexivity|].
+      change (filter (fun e => p (fst e)) ((g, c) :: L))
+        with (if p g then (g, c) :: filter (fun e => p (fst e)) L else filter (fun e => p (fst e)) L).
+      change (filter (fun e => list_eqb f (fst e)) ((g, c) :: L))
+        with (if list_eqb f g then (g, c) :: filter (fun e => list_eqb f (fst e)) L else filter (fun e => list_eqb f (fst e)) L).
+      destruct (list_eqb_spec f g) as [->|N].
+      - destruct (p g) eqn:P; [|exact IH].
+        change (filter (fun e => list_eqb g (fst e)) ((g, c) :: filter (fun e => p (fst e)) L))
+          with (if list_eqb g g then (g, c) :: filter (fun e => list_eqb g (fst e)) (filter (fun e => p (fst e)) L)
+                else filter (fun e => list_eqb g (fst e)) (filter (fun e => p (fst e)) L)).
+        rewrite list_eqb_refl, IH. reflexivity.
+      - destruct (p g) eqn:P; [|exact IH].
+        change (filter (fun e => list_eqb f (fst e)) ((g, c) :: filter (fun e => p (fst e)) L))
+          with (if list_eqb f g then (g, c) :: filter (fun e => list_eqb f (fst e)) (filter (fun e => p (fst e)) L)
+                else filter (fun e => list_eqb f (fst e)) (filter (fun e => p (fst e)) L)).
+        destruct (list_eqb_spec f g); [contradiction|exact IH]. }
+    rewrite E. destruct (p f); reflexivity.
+  Qed.
+  Lemma namedc_nodup f L : NoDup (map fst L) ->
+    namedc f L = match flookup f L with Some c => chunk c | None => [] end.
+  Proof.
+    intros ND. unfold namedc. assert (H := named_nodup f L ND). unfold named in H.
+    destruct (flookup f L) as [c|].
+    - destruct (filter (fun e => list_eqb f (fst e)) L) as [|[g c'] [|? ?]]; try discriminate H.
+      cbn [map snd] in H. injection H as ->. cbn [flat_map snd]. apply app_nil_r.
+    - destruct (filter (fun e => list_eqb f (fst e)) L); [reflexivity|discriminate H].
+  Qed.
+
+  (* every metadata file: the payloads of its messages, in order, are its pieces - nothing else is sent under its name *)
+  Lemma written_meta_c f L : NoDup (map fst L) -> sent_name f = true ->
+    written f (meta_msgs_c chunk L) =
+    match flookup f L with Some c => (if list_eqb n_info f then [c] else chunk c) | None => [] end.
+  Proof.
+    intros ND S. unfold meta_msgs_c. rewrite !written_app, !written_files_c.
+    rewrite written_info by (intros e I; apply filter_In in I; destruct I as [_ I]; symmetry; apply list_eqb_eq; exact I).
+    rewrite !namedc_sel, named_sel, (namedc_nodup f L ND), (named_nodup f L ND).
+    unfold sent_name in S.
+    destruct (list_eqb_spec n_task f) as [<-|Nt].
+    { change (is_map_name n_task) with false. change (is_sym_name n_task) with false.
+      change (is_dbg_name n_task) with false. change (list_eqb n_info n_task) with false. rewrite !app_nil_r. reflexivity. }
+    destruct (list_eqb_spec n_info f) as [<-|Ni].
+    { change (is_map_name n_info) with false. change (is_sym_name n_info) with false.
+      change (is_dbg_name n_info) with false. reflexivity. }
+    cbn [orb] in S. rewrite orb_false_r in S. cbn [app].
+    destruct (is_map_name f) eqn:M.
+    { unfold is_map_name in M. apply andb_true_iff in M. destruct M as [_ M].
+      unfold is_sym_name, is_dbg_name.
+      rewrite (suffix_excl (str ".map") (str ".sym") f eq_refl M), (suffix_excl (str ".map") (str ".dbg") f eq_refl M).
+      rewrite !app_nil_r. reflexivity. }
+    destruct (is_sym_name f) eqn:Sy.
+    { unfold is_sym_name in Sy. unfold is_dbg_name. rewrite (suffix_excl (str ".sym") (str ".dbg") f eq_refl Sy).
+      rewrite !app_nil_r. reflexivity. }
+    cbn [orb] in S. rewrite S. rewrite app_nil_r. reflexivity.
+  Qed.
+  Lemma written_meta_other_c f L : sent_name f = false -> written f (meta_msgs_c chunk L) = [].
+  Proof.
+    intros S. unfold meta_msgs_c. rewrite !written_app, !written_files_c.
+    rewrite written_info by (intros e I; apply filter_In in I; destruct I as [_ I]; symmetry; apply list_eqb_eq; exact I).
+    rewrite !namedc_sel, named_sel. unfold sent_name in S.
+    apply orb_false_iff in S. destruct S as [S S5]. apply orb_false_iff in S. destruct S as [S S4].
+    apply orb_false_iff in S. destruct S as [S S3]. apply orb_false_iff in S. destruct S as [S1 S2].
+    rewrite S1, S2, S3, S4, S5. reflexivity.
+  Qed.
+
+  Lemma same_file_set_local_c L data :
+    NoDup (map fst L) -> (forall e, In e L -> sent_name (fst e) = true) -> forallb is_data data = true ->
+    forall f, flookup f (local_dir (data ++ meta_msgs_c chunk L)) =
+              match flookup f L with Some c => Some c | None => flookup f (local_dir data) end.
+  Proof.
+    intros ND A D f. unfold local_dir. rewrite !flookup_fold, written_app.
+    destruct (flookup f L) as [c|] eqn:E.
+    - assert (S : sent_name f = true).
+      { apply flookup_in in E. apply in_map_iff in E. destruct E as [e [<- I]]. apply A. exact I. }
+      rewrite (written_data_sent f data D S), (written_meta_c f L ND S), E. cbn [app].
+      assert (Fr : flookup f fresh_dir = None).
+      { unfold fresh_dir. cbn [flookup]. destruct (list_eqb_spec f n_default_opts) as [->|]; [|reflexivity].
+        vm_compute in S. discriminate. }
+      rewrite Fr. destruct (list_eqb n_info f).
+      + cbn [extend concat]. rewrite app_nil_r. reflexivity.
+      + unfold extend. destruct (chunk c) eqn:C; [exfalso; apply (chunk_nonempty c C)|]. rewrite <- C, chunk_concat. reflexivity.
+    - assert (W : written f (meta_msgs_c chunk L) = []).
+      { destruct (sent_name f) eqn:S.
+        - rewrite (written_meta_c f L ND S), E. reflexivity.
+        - apply written_meta_other_c; assumption. }
+      rewrite W, app_nil_r. reflexivity.
+  Qed.
+
+  Lemma meta_msgs_c_body L : forallb is_body (meta_msgs_c chunk L) = true.
+  Proof.
+    unfold meta_msgs_c. rewrite !forallb_app.
+    assert (F : forall X, forallb is_body (flat_map (msgs_of_file chunk) X) = true).
+    { induction X as [|e X IH]; [reflexivity|]. cbn [flat_map]. rewrite forallb_app, IH, andb_true_r.
+      unfold msgs_of_file. induction (chunk (snd e)); [reflexivity|assumption]. }
+    assert (I : forall X, forallb is_body (map msg_of_info X) = true) by (induction X; [reflexivity|exact IHX]).
+    rewrite !F, I. reflexivity.
+  Qed.
+
+  (* SAME FILE SET for ANY way of cutting a file into messages: as long as every file gets at least one message and
+     the payloads of its messages add up to the file, the receiver's directory has exactly the local files *)
+  Lemma same_file_set_c fx k d L data s :
+    NoDup (map fst L) -> (forall e, In e L -> sent_name (fst e) = true) -> forallb is_data data = true ->
+    mkdir_name fx d (clients s) = Some d -> create_directory d (fs s) d = Some fresh_dir ->
+    exists s' R, run fx (map (pair k) (MDir d :: (data ++ meta_msgs_c chunk L) ++ [MEnd])) s = Some s' /\ fs s' d = Some R /\
+      forall f, flookup f R = match flookup f L with Some c => Some c | None => flookup f (local_dir data) end.
+  Proof.
+    intros ND A D MK C.
+    destruct (same_as_local fx k d (data ++ meta_msgs_c chunk L) s) as [s' [R [F _]]]; [|exact MK|exact C|].
+    - rewrite forallb_app, (data_body data D), meta_msgs_c_body. reflexivity.
+    - exists s', (local_dir (data ++ meta_msgs_c chunk L)). split; [exact R|]. split; [exact F|].
+      apply same_file_set_local_c; assumption.
+  Qed.
+End Chunked.
+
+(* the code's chunking (one message per file) and fixed-size pieces both qualify *)
+Lemma whole_ok : (forall c, whole c <> []) /\ (forall c, concat (whole c) = c).
+Proof. split; intros c; [discriminate|apply app_nil_r]. Qed.
+Lemma pieces_ok fuel n : (forall c, pieces fuel n c <> []) /\ (forall c, concat (pieces fuel n c) = c).
+Proof.
+  split; induction fuel as [|f IH]; intros c; cbn [pieces]; try discriminate; try apply app_nil_r.
+  - destruct (length c <=? n)%nat; discriminate.
+  - destruct (length c <=? n)%nat; [apply app_nil_r|]. cbn [concat]. rewrite IH. apply firstn_skipn.
+Qed.
+Lemma meta_msgs_whole L : meta_msgs_c whole L = meta_msgs L.
+Proof.
+  unfold meta_msgs_c, meta_msgs.
+  assert (E : forall X, flat_map (msgs_of_file whole) X = map msg_of_file X).
+  { induction X as [|e X IH]; [reflexivity|]. cbn [flat_map map]. rewrite IH. reflexivity. }
+  rewrite !E. reflexivity.
+Qed.
+
+(* the slip of a sender that cuts files into 64 KiB pieces but computes the last piece as len mod 64 KiB (for a
+   4-byte piece size here): a file of exactly 2 pieces loses its last piece - [chunk_concat] is the hypothesis it breaks *)
+Definition bad_pieces (n : nat) (c : bytes) : list bytes :=
+  (fix go (fuel : nat) (c : bytes) : list bytes :=
+     match fuel with
+     | O => [c]
+     | S f => if (n <? length c)%nat then firstn n c :: go f (skipn n c) else [firstn (length c mod n) c]
+     end) (length c) c.
+Example bad_pieces_loses_data :
+  concat (bad_pieces 4 [1; 2; 3; 4; 5; 6; 7]) = [1; 2; 3; 4; 5; 6; 7] /\
+  concat (bad_pieces 4 [1; 2; 3; 4; 5; 6; 7; 8]) = [1; 2; 3; 4] /\ concat (bad_pieces 4 [1; 2; 3; 4]) = [].
+Proof. vm_compute. repeat split; reflexivity. Qed.
